@@ -523,6 +523,15 @@ MUTANTS = [
     dict(id="c06-binary-unsigned", prop="C06", file="src/query_router.rs", expect="C06-R5",
          what="binary int4 key decoded without its sign",
          old='''                        4 => message_cursor.get_i32() as i64,''', new='''                        4 => message_cursor.get_u32() as i64,'''),
+    dict(id="c02-copy-mode-tested-last", prop="C02", file="src/server.rs", expect="C02-R6",
+         what="D25 again: check-in sends its queries before looking at COPY mode",
+         old='''        if self.in_copy_mode() {
+            warn!(target: "pgcat::server::cleanup", "Server returned while still in copy-mode");
+            self.mark_bad("returned while still in copy-mode");
+            return Ok(());
+        }
+
+''', new=''''''),
     # ------------------------------------------------------------------ C12
     dict(id="c12-raw-value", prop="C12", file="src/server.rs", expect="C12-R2",
          what="value interpolated without escaping again",
